@@ -122,6 +122,11 @@ TARGETS = [
     ('cardutil/mciipm.py', 'IpmParamReader.__next__', {}, ('opt', ('dict', 'str', 'str')),
      {'readonly': True, 'fragment': ('while_body', 'record'), 'params': [('record', 'bytes')],
       'lean_name': 'IpmParamReader_next_row'}),
+    # one round of the index-loading loop of IpmParamReader.__init__ (after `vbs_record = super().__next__()`):
+    # the new table index, whether the trailer was seen, and whether the loop stops
+    ('cardutil/mciipm.py', 'IpmParamReader.__init__', {}, ('tuple', ('dict', 'str', 'str'), ('tuple', 'bool', 'bool')),
+     {'readonly': True, 'fragment': ('while_step', 'vbs_record', ['self.table_index', 'trailer_record_found']),
+      'params': [('vbs_record', 'bytes'), ('trailer_record_found', 'bool')], 'lean_name': 'IpmParamReader_index_step'}),
     # IpmReader.__next__: the base reader's method through super(), the message decoder as an external function of the
     # record, the library error re-raised with the record number remembered BEFORE the read and the raw record as context
     ('cardutil/mciipm.py', 'IpmReader.__next__', {}, ('dict', 'str', 'pyval'),
@@ -1872,6 +1877,52 @@ def fragment_of(body, spec):
     before the first assignment to `name`, followed by `return result`"""
     def assigns(st, name):
         return isinstance(st, ast.Assign) and any(isinstance(t, ast.Name) and t.id == name for t in st.targets)
+    if spec[0] == 'while_step':
+        # ('while_step', name, state): the FIRST `while True:` loop of the function, which starts with
+        # `try: name = super().__next__()  except StopIteration: break`; the fragment is the statements after that `try`
+        # for ONE record, with `name` and the loop's state as parameters, answering (state..., stop?) — `break` is
+        # "stop", the end of the body is "go on"
+        loops = [st for st in body if isinstance(st, ast.While)]
+        if not loops or loops[0].orelse or not (isinstance(loops[0].test, ast.Constant) and loops[0].test.value is True):
+            raise Untranslatable('no `while True:` loop')
+        inner = loops[0].body
+        first = inner[0] if inner else None
+        ok = isinstance(first, ast.Try) and len(first.body) == 1 and assigns(first.body[0], spec[1]) \
+            and len(first.handlers) == 1 and isinstance(first.handlers[0].type, ast.Name) \
+            and first.handlers[0].type.id == 'StopIteration' and len(first.handlers[0].body) == 1 \
+            and isinstance(first.handlers[0].body[0], ast.Break) and not first.orelse and not first.finalbody
+        if ok:
+            call = first.body[0].value
+            ok = isinstance(call, ast.Call) and isinstance(call.func, ast.Attribute) and call.func.attr == '__next__' \
+                and isinstance(call.func.value, ast.Call) and isinstance(call.func.value.func, ast.Name) \
+                and call.func.value.func.id == 'super' and not call.args
+        if not ok:
+            raise Untranslatable(f'the loop does not start with try: {spec[1]} = super().__next__() except StopIteration: break')
+
+        def result(stop):
+            items = [ast.parse(n, mode='eval').body for n in spec[2]] + [ast.Constant(stop)]
+            def nest(xs):
+                return xs[0] if len(xs) == 1 else ast.Tuple(elts=[xs[0], nest(xs[1:])], ctx=ast.Load())
+            return ast.Return(value=nest(items))
+
+        class BreakRw(ast.NodeTransformer):
+            def visit_Break(self, node):
+                return ast.copy_location(result(True), node)
+
+            def visit_While(self, node):
+                raise Untranslatable('nested loop in the loop body')
+
+            def visit_For(self, node):
+                raise Untranslatable('nested loop in the loop body')
+
+            def visit_Continue(self, node):
+                raise Untranslatable('continue in the loop body')
+
+            def visit_Return(self, node):
+                raise Untranslatable('return in the loop body')
+        import copy
+        out = [BreakRw().visit(copy.deepcopy(st)) for st in inner[1:]] + [result(False)]
+        return [ast.fix_missing_locations(st) for st in out]
     if spec[0] == 'while_body':
         # ('while_body', name): the function is `while True:` around `name = super(...).__next__()` and further statements;
         # the fragment is those further statements with `name` as a parameter, answering None when they end without
